@@ -140,13 +140,17 @@ def automaton(rec, sim, R, V, final=True, pi=25, pt=20):
             # (how long after the silence began a timeout may fire is C07's
             # subject; here the cause only has to have begun)
             allowed |= REASONS[c['cause']]
+        # known finding K7: the long-poll left pending by an eager upgrade
+        # competes with the websocket writer for packets and for the None
+        # sentinel, which starves one of them or delays the writer's exit
         stale = sim.kind == 'T' and s.eager_with_pending_poll and \
-            d['reason'] in ('transport error', 'transport close')
+            d['reason'] in TIMEOUT_REASONS
         if stale and (not cands or d['reason'] not in allowed):
             V('stale-poll-after-upgrade', 'session %d (upgraded while a '
               'long-poll was still pending, client sent UPGRADE without '
-              'waiting for it) ended with %r at t=%.3f without a cause' % (
-                  s.n, d['reason'], d['t']))
+              'waiting for it) ended with %r at t=%.3f; causes that had '
+              'begun: %r' % (s.n, d['reason'], d['t'],
+                             [(c['cause'], c['t']) for c in cands]))
         elif not cands:
             V('disconnect-without-cause', 'session %d ended with %r at t=%.3f '
               'but nothing had ended it' % (s.n, d['reason'], d['t']))
